@@ -9,13 +9,16 @@ PROPS = ['C%02d' % i for i in range(1, 20)]
 PY = '/venv/bin/python'
 BASELINE = "cd /repo && /venv/bin/python -m pytest -ra -q -p no:cacheprovider --timeout=900 --continue-on-collection-errors"
 
-checks, na = [], []
+checks, na, all_modules = [], [], []
 for p in PROPS:
     try:
         m = importlib.import_module('props.' + p)
     except ImportError:
         na.append({'property_id': p, 'reason': 'check not built yet in this round (planned in DESIGN.md section 6); not a claim that the technique cannot apply'})
         continue
+    all_modules.append(m.MODULE)
+    for e in getattr(m, 'EXTENSIONS', []):
+        all_modules.append(importlib.import_module(e).MODULE)
     checks.append({
         'property_id': p,
         'quick_cmd': '%s harness/check.py %s --tier quick' % (PY, p),
@@ -29,7 +32,7 @@ for p in PROPS:
     })
 manifest = {
     'version': 1,
-    'setup_cmd': 'cd lean && lake build SshAudit driver',
+    'setup_cmd': 'cd lean && lake build SshAudit driver ' + ' '.join(sorted(set(all_modules))),
     'hooks': {'guard': 'JTESTA_SSH_AUDIT_VERIF', 'enable': 'no hooks are needed: the harness substitutes socket/select/getaddrinfo/OutputBuffer from outside (Python); the guard name is reserved',
               'baseline_off_cmd': BASELINE, 'source_commits': [], 'add_only': True},
     'engines': [{'name': 'lean4-proof+correspondence', 'path': 'harness/check.py',
